@@ -167,7 +167,7 @@ def gen_deck(rng):
             facets[sid] = nf
         if surf['mn'] == 'px' and surf['params'] in ([1.0], [-1.0]):
             tags.add('helper-like-plane')
-        if rng.random() < 0.05 and facets[sid] == 0:
+        if rng.random() < 0.15 and facets[sid] == 0:
             surf['bc'] = rng.choice(['*', '+'])
             tags.add('flagged')
         if rng.random() < 0.12 or (surf['mn'] in ('tz', 'tx', 'ty')
